@@ -691,6 +691,10 @@ impl Duration {
         provider: &impl TimeZoneProvider,
         // Review question what is the return type of duration.prototye.total?
     ) -> TemporalResult<FiniteF64> {
+        // `unit` is a required option; `auto` is not a unit a duration can be totalled in.
+        if unit == Unit::Auto {
+            return Err(TemporalError::range().with_message("unit must be a valid unit."));
+        }
         match relative_to {
             // 11. If zonedRelativeTo is not undefined, then
             Some(RelativeTo::ZonedDateTime(zoned_datetime)) => {
